@@ -8,11 +8,13 @@ package webrtc
 // channel acting as man in the middle).
 
 import (
+	"context"
 	"crypto/ecdsa"
 	"crypto/elliptic"
 	"crypto/rand"
 	"crypto/rsa"
 	"crypto/sha256"
+	"crypto/tls"
 	"encoding/hex"
 	"encoding/json"
 	"fmt"
@@ -20,6 +22,10 @@ import (
 	"sync"
 	"testing"
 	"time"
+
+	"github.com/pion/dtls/v3"
+	"github.com/pion/transport/v4"
+	"github.com/pion/webrtc/v4/internal/mux"
 )
 
 // vfSetupOf returns the a=setup values of a description, one per m-section ("" = absent).
@@ -289,7 +295,7 @@ type c14Case struct {
 
 func c14Gen(seed uint64, idx, total int, tier string) any {
 	r := vfNewRand(seed, "c14")
-	c := &c14Case{Tamper: vfPick(r, []string{"none", "flip-digit", "flip-digit", "flip-digit", "hash-sha1", "hash-sha384", "hash-unknown", "hash-unknown", "delete", "move-level", "lower-case"}),
+	c := &c14Case{Tamper: vfPick(r, []string{"none", "flip-digit", "flip-digit", "flip-digit", "hash-sha1", "hash-sha384", "hash-unknown", "hash-unknown", "delete", "move-level", "lower-case", "chain"}),
 		Target: vfPick(r, []string{"offer", "answer"}), CertA: vfPick(r, []string{"default", "default", "ecdsa", "rsa"}), CertB: vfPick(r, []string{"default", "default", "ecdsa", "rsa"}),
 		MediaFP: r.Bool(0.4), NoVerify: r.Bool(0.1), Digit: r.Intn(64), NetSeed: r.U64(), Reissue: r.Bool(0.2)}
 	if c.Reissue {
@@ -410,6 +416,10 @@ func c14Run(t *testing.T, cj []byte, res *vfResult) {
 	var c c14Case
 	if err := json.Unmarshal(cj, &c); err != nil {
 		res.Verdict, res.Detail = "error", err.Error()
+		return
+	}
+	if c.Tamper == "chain" {
+		c14ChainRun(t, &c, res)
 		return
 	}
 	cfg := fmt.Sprintf("tamper=%s target=%s certA=%s certB=%s mediaFP=%v noVerify=%v", c.Tamper, c.Target, c.CertA, c.CertB, c.MediaFP, c.NoVerify)
@@ -605,4 +615,169 @@ func init() {
 		Assumptions: []string{"'never reaches connected' is sampled every 500 ms of fake time for 30 s", "a description rejected by SetRemoteDescription (e.g. fingerprint deleted) ends the run"},
 		Gen:         c14Gen, Run: c14Run,
 	})
+}
+
+// c14ChainRun: the peer that shows up owns another key pair; it authenticates the DTLS handshake
+// with its own certificate and appends the honest party's certificate (public: it travels in
+// clear in every DTLS 1.2 handshake) behind it in the Certificate message. The signaled
+// fingerprint is the honest party's. The verifying side is a DTLSTransport on real ICE (ORTC
+// objects on the simulated network); the impostor runs the library's ICE and drives pion/dtls by
+// hand, as client or server.
+func c14ChainRun(t *testing.T, c *c14Case, res *vfResult) {
+	victimIsServer := c.Target == "offer"
+	var lines []string
+	vfBubble(t, func(t *testing.T) {
+		t0 := time.Now()
+		nw, err := vfNewNetSim(c.NetSeed, vfNetCfg{BaseDelayUs: 2000})
+		if err != nil {
+			res.Verdict, res.Detail = "error", err.Error()
+			return
+		}
+		ha, _ := nw.addHost("10.0.1.2")
+		hb, _ := nw.addHost("10.0.2.2")
+		_ = nw.Start()
+		defer func() { nw.Stop(); res.SimNs = int64(time.Since(t0)) }()
+		mkAPI := func(host transport.Net) *API {
+			se := SettingEngine{}
+			se.LoggerFactory = vfSilentLoggers()
+			se.SetNet(host)
+			se.SetICEMulticastDNSMode(1)
+			se.SetNetworkTypes([]NetworkType{NetworkTypeUDP4})
+			return NewAPI(WithSettingEngine(se))
+		}
+		newCert := func() (*Certificate, error) {
+			sk, err := ecdsa.GenerateKey(elliptic.P256(), rand.Reader)
+			if err != nil {
+				return nil, err
+			}
+			return GenerateCertificate(sk)
+		}
+		honest, err1 := newCert()
+		impostor, err2 := newCert()
+		own, err3 := newCert()
+		if err1 != nil || err2 != nil || err3 != nil {
+			res.Verdict, res.Detail = "error", "certificates"
+			return
+		}
+		honestFP, _ := honest.GetFingerprints()
+		va, ia := mkAPI(ha), mkAPI(hb)
+		vg, err := va.NewICEGatherer(ICEGatherOptions{})
+		if err != nil {
+			res.Verdict, res.Detail = "error", err.Error()
+			return
+		}
+		vice := va.NewICETransport(vg)
+		vdtls, err := va.NewDTLSTransport(vice, []Certificate{*own})
+		if err != nil {
+			res.Verdict, res.Detail = "error", err.Error()
+			return
+		}
+		ig, err := ia.NewICEGatherer(ICEGatherOptions{})
+		if err != nil {
+			res.Verdict, res.Detail = "error", err.Error()
+			return
+		}
+		iice := ia.NewICETransport(ig)
+		defer func() { _ = vdtls.Stop(); _ = vice.Stop(); _ = iice.Stop() }()
+		var mu sync.Mutex
+		var states []DTLSTransportState
+		vdtls.OnStateChange(func(s DTLSTransportState) { mu.Lock(); states = append(states, s); mu.Unlock() })
+		gather := func(g *ICEGatherer) ([]ICECandidate, ICEParameters, bool) {
+			done := make(chan struct{})
+			var once sync.Once
+			g.OnLocalCandidate(func(cd *ICECandidate) {
+				if cd == nil {
+					once.Do(func() { close(done) })
+				}
+			})
+			if err := g.Gather(); err != nil {
+				return nil, ICEParameters{}, false
+			}
+			ok := vfWaitFor(10*time.Second, func() bool {
+				select {
+				case <-done:
+					return true
+				default:
+					return false
+				}
+			})
+			cs, _ := g.GetLocalCandidates()
+			ps, _ := g.GetLocalParameters()
+			return cs, ps, ok
+		}
+		vc, vp, ok1 := gather(vg)
+		ic, ip, ok2 := gather(ig)
+		if !ok1 || !ok2 {
+			res.Verdict, res.Detail = "error", "gathering did not finish"
+			return
+		}
+		remoteRole := DTLSRoleClient // the role of the remote (the impostor) as signaled to the verifier
+		if !victimIsServer {
+			remoteRole = DTLSRoleServer
+		}
+		var startErr, impErr error
+		startDone, impDone := false, false
+		go func() {
+			role := ICERoleControlling
+			e := vice.SetRemoteCandidates(ic)
+			if e == nil {
+				e = vice.Start(nil, ip, &role)
+			}
+			if e == nil {
+				e = vdtls.Start(DTLSParameters{Role: remoteRole, Fingerprints: honestFP})
+			}
+			mu.Lock()
+			startErr, startDone = e, true
+			mu.Unlock()
+		}()
+		go func() {
+			role := ICERoleControlled
+			e := iice.SetRemoteCandidates(vc)
+			if e == nil {
+				e = iice.Start(nil, vp, &role)
+			}
+			if e == nil {
+				endpoint := iice.newEndpoint(mux.MatchDTLS)
+				chain := tls.Certificate{Certificate: [][]byte{impostor.x509Cert.Raw, honest.x509Cert.Raw}, PrivateKey: impostor.privateKey}
+				var conn *dtls.Conn
+				if victimIsServer {
+					conn, e = dtls.ClientWithOptions(endpoint, endpoint.RemoteAddr(), dtls.WithCertificates(chain), dtls.WithInsecureSkipVerify(true),
+						dtls.WithSRTPProtectionProfiles(defaultSrtpProtectionProfiles()...))
+				} else {
+					conn, e = dtls.ServerWithOptions(endpoint, endpoint.RemoteAddr(), dtls.WithCertificates(chain), dtls.WithInsecureSkipVerify(true),
+						dtls.WithSRTPProtectionProfiles(defaultSrtpProtectionProfiles()...), dtls.WithClientAuth(dtls.RequireAnyClientCert))
+				}
+				if e == nil {
+					ctx, cancel := context.WithTimeout(context.Background(), 20*time.Second)
+					e = conn.HandshakeContext(ctx)
+					cancel()
+					defer func() { _ = conn.Close() }()
+				}
+			}
+			mu.Lock()
+			impErr, impDone = e, true
+			mu.Unlock()
+		}()
+		vfWaitFor(40*time.Second, func() bool { mu.Lock(); defer mu.Unlock(); return startDone && impDone })
+		mu.Lock()
+		defer mu.Unlock()
+		lines = append(lines, fmt.Sprintf("verifier is DTLS server=%v; DTLSTransport.Start -> %v; impostor handshake -> %v; verifier states %v", victimIsServer, startErr, impErr, states))
+		if !startDone || !impDone {
+			res.stat("inconclusive_chain_run_did_not_finish", 1)
+			return
+		}
+		res.stat("runs_with_foreign_certificate_chain", 1)
+		connected := vdtls.State() == DTLSTransportStateConnected
+		for _, s := range states {
+			if s == DTLSTransportStateConnected {
+				connected = true
+			}
+		}
+		if connected || (startErr == nil && impErr == nil) {
+			res.violate("dtls-connected-with-a-peer-whose-certificate-matches-no-fingerprint:appended-to-chain", fmt.Sprintf("the peer authenticated with its own certificate and merely appended the certificate the signaled fingerprint belongs to; verifier (DTLS server=%v) Start -> %v, states %v, impostor handshake -> %v", victimIsServer, startErr, states, impErr))
+		}
+	})
+	res.Log = lines
+	res.Sig = vfSig(lines)
+	res.Nontrivial = fmt.Sprintf("chain server=%v", victimIsServer)
 }
